@@ -28,6 +28,14 @@ Init == \/ \E f \in Polys, g \in Polys :
               /\ z <= np
               /\ cs = [kind |-> "polys", a |-> <<Alpha[4], Alpha[2], Alpha[5]>>, b |-> <<Alpha[3], Alpha[2]>>, k |-> Alpha[(np % 5) + 1],
                        da |-> 1, db |-> 1, npts |-> np, zx |-> z]
+        \* long operands: 14..65 coefficients (even and odd lengths on both sides of 16 / 32 / 64, non-zero leading coefficient
+        \* and with zero leading coefficients), evaluated at the scalar and at as many points as coefficients (sd = 1) or at
+        \* about half as many (sd = 2); interpolation through that many points
+        \/ \E n \in {14, 15, 16, 17, 18, 24, 31, 32, 33, 40, 63, 64, 65}, sd \in 1..2, lz \in 0..1 :
+              cs = [kind |-> "polys", a |-> [i \in 1..n |-> IF lz = 1 /\ i > n - 2 THEN 0 ELSE Alpha[((i * sd + i * i) % 4) + 2]],
+                      b |-> [i \in 1..(3 + (n % 5)) |-> Alpha[((i + n) % 4) + 2]],
+                      k |-> Alpha[(n % 4) + 2], da |-> (n % 4) + 1, db |-> IF sd = 1 THEN 1 ELSE Alpha[3 + (n % 3)],
+                      npts |-> IF sd = 1 THEN n ELSE (n \div 2) + 1, zx |-> (n + lz) % 3]
         \/ \E len \in {1, 2, 3, 16, 1023, 1024, 1025, 2048}, zpos \in {0, 1, 2} :
               cs = [kind |-> "vectors", len |-> len, zeros |-> zpos]
 Next == UNCHANGED cs
